@@ -269,3 +269,41 @@ def _always_exits(s):
     if k == "ExprWithCleanups":
         return _always_exits(strip(s))
     return False
+
+
+# ---------------------------------------------------------------------------------------------------------------
+def best_renaming(reference_texts, current_texts, limit=7):
+    """Reference summaries name reassigned locals by declaration order (?v1, ?v2, ...). Moving a declaration, or adding
+    / removing a local, shifts the numbers without changing anything else. Returns the mapping {current name ->
+    reference name} that makes the largest number of reference texts reappear among the current texts."""
+    import itertools
+    import re
+    rx = re.compile(r"\?v\d+")
+    ref, cur = set(reference_texts), set(current_texts)
+    gn = sorted({m for t in ref for m in rx.findall(t)})
+    cn = sorted({m for t in cur for m in rx.findall(t)})
+    if not gn or not cn:
+        return {}
+    if len(cn) > limit or len(gn) > limit:
+        return {}
+
+    def apply(mapping, t):
+        return rx.sub(lambda m: mapping.get(m.group(0), m.group(0)), t)
+    ident = {c: c for c in cn}
+    best, best_score = ident, sum(1 for t in cur if t in ref)
+    if best_score == len(ref):
+        return {}
+    targets = gn + ["?w%d" % i for i in range(max(0, len(cn) - len(gn)))]
+    for perm in itertools.permutations(targets, len(cn)):
+        mapping = dict(zip(cn, perm))
+        score = sum(1 for t in cur if apply(mapping, t) in ref)
+        if score > best_score:
+            best, best_score = mapping, score
+    return {k: v for k, v in best.items() if k != v}
+
+
+def rename_text(mapping, t):
+    if not mapping:
+        return t
+    import re
+    return re.sub(r"\?v\d+", lambda m: mapping.get(m.group(0), m.group(0)), t)
